@@ -23,6 +23,7 @@ class Obligation:
         """The formula whose unsatisfiability discharges the obligation."""
         f = z3.And(*self.hyps, z3.Not(self.goal)) if self.hyps else z3.Not(self.goal)
         if self.float_model == 'S' and has_float_ops(f):
+            f = z3.simplify(f)      # canonical form first: equal float applications must lower to the same variables
             g, side = lower_formula(f, exact_i2f=self.meta.get('exact_i2f', True))
             f = z3.And(g, *side) if side else g
         return f
